@@ -15,7 +15,7 @@
 (***************************************************************************)
 EXTENDS FindingsC04
 
-CONSTANT Repaired     \* subset of 1..15: findings F-C04-n repaired in the tree under test
+CONSTANT Repaired     \* subset of 1..16: findings F-C04-n repaired in the tree under test
 
 StillOpen(n) == n \notin Repaired
 
@@ -26,23 +26,23 @@ Reached(via, opts) ==
    /\ StillOpen(3) => ~HasEdge(via, "encoding", "headers")
    /\ StillOpen(4) => ~HasEdge(via, "header", "examples")
    /\ StillOpen(5) => ~(HasEdge(via, "schema", "discriminator") \/ HasEdge(via, "schema", "xml"))
-   /\ StillOpen(15) => ~HasEdge(via, "link", "server")
+   /\ StillOpen(16) => ~HasEdge(via, "link", "server")
 
 (* the loader refuses a reference whose target is missing wherever it looks for references at all *)
 LoaderVisits(x) == StillOpen(10) => (~UnvisitedByLoader(x) /\ ~HasEdge(x.via, "mediaType", "encoding") /\ ~HasEdge(x.via, "header", "examples"))
 
-(* the mode in which the code judges the example(s) of a place.  The repair of 13 (the mode travels in a context *)
-(* derived for the Request Body / Response, not in the shared options) also ends 12.                           *)
+(* the mode in which the code judges the example(s) of a place.  The repair of 14 (the mode travels in a context *)
+(* derived for the Request Body / Response, not in the shared options) also ends 13.                           *)
 ImplMode(sites, via, at, noopt) ==
-   IF ~StillOpen(13) THEN ModeOf(via)
-   ELSE IF StillOpen(12) /\ noopt THEN "any"
+   IF ~StillOpen(14) THEN ModeOf(via)
+   ELSE IF StillOpen(13) /\ noopt THEN "any"
    ELSE StickyMode(sites, via, at)
 SeenInImplMode(doc, sites, v, noopt) ==
    (v.rule \in ExR /\ v.kind \in ModeKinds) => v.rule \in ExRulesAt(doc, v.kind, v.at, ImplMode(sites, v.via, v.at, noopt))
 
 ValidateSees(doc, v, opts) ==
    /\ Reached(v.via, opts)
-   /\ StillOpen(14) => ~NoSchemaExamples(doc, v)
+   /\ StillOpen(15) => ~NoSchemaExamples(doc, v)
    /\ StillOpen(4) => ~HeaderUnchecked(v)
    /\ StillOpen(6) => ~NestedRefSibling(v)
    /\ StillOpen(7) => ~TemplateConflict(v)
